@@ -16,7 +16,7 @@ import (
 func init() {
 	reg(&core.RuleInfo{Name: "FLT-EXH", Props: []string{"C02", "C03", "C06"}, Engine: "PROV", Floor: 3, Confirmed: 4,
 		Doc: "every ReqFilter field is consumed by each consumer (matcher, index, SQL builder)", Run: runFltExh})
-	reg(&core.RuleInfo{Name: "FLT-NIL", Props: []string{"C02", "C03", "C06"}, Engine: "TAB", Floor: 12, Confirmed: 20,
+	reg(&core.RuleInfo{Name: "FLT-NIL", Props: []string{"C02", "C03", "C06", "C16"}, Engine: "TAB", Floor: 12, Confirmed: 20,
 		Doc: "presence of a list condition is its nil-ness, never its length", Run: runFltNil})
 	reg(&core.RuleInfo{Name: "FLT-BND", Props: []string{"C02", "C06"}, Engine: "INT", Floor: 4, Confirmed: 4,
 		Doc: "since/until are inclusive bounds", Run: runFltBnd})
@@ -268,8 +268,8 @@ func runFltNil(c *core.Ctx) {
 	// the consumers of a filter, each with the private helpers it delegates to
 	add(P.Func(P.Root, "NewReqFilterMatcher"), "C02")
 	add(P.Method(P.Root, "ReqFilterEventLimitMatcher", "Match"), "C02")
-	add(P.Method(P.Root, "eventCacheEvsIndex", "Find"), "C03")
-	add(sqliteQueryBuilder(c), "C06")
+	add(P.Method(P.Root, "eventCacheEvsIndex", "Find"), "C03", "C16") // C16: a REQ on the cache handler is answered with exactly these matches
+	add(sqliteQueryBuilder(c), "C06", "C16")
 	if len(sites) < 4 {
 		c.NoAnchor(nil, "filter consumers (matcher constructor, Match, index Find, SQL query builder)")
 	}
@@ -570,7 +570,11 @@ func runMatchPair(c *core.Ctx) {
 		if !ok {
 			return
 		}
-		if lk, ok := l.X.(*ssa.Lookup); ok && o.Path(lk.X) == "recv.f.Tags" && o.Path(lk.Index) == ev+".Tags[*][0]" {
+		outerSet := l.X
+		if ex, isEx := outerSet.(*ssa.Extract); isEx && ex.Index == 0 {
+			outerSet = ex.Tuple // `vals, ok := Tags[name]; …; vals[v]`
+		}
+		if lk, ok := outerSet.(*ssa.Lookup); ok && o.Path(lk.X) == "recv.f.Tags" && o.Path(lk.Index) == ev+".Tags[*][0]" {
 			inner, innerOcc = l, o
 		}
 	})
